@@ -704,3 +704,31 @@ package main
 //@ func (*RuntimeState).webauthnAuthFinish
 //@   atcall webauthn.WebAuthn).ValidateLogin requires (wa *webauthn.WebAuthn, user webauthn.User, session webauthn.SessionData, parsed *protocol.ParsedCredentialAssertionData) :: !hasKey(state.localAuthData, ghostAuthUser)   #C16.webauthn-challenge-taken-before-verification @C16,C05
 //@   atcall protocol.ParsedCredentialAssertionData).Verify requires (parsed *protocol.ParsedCredentialAssertionData, storedChallenge string, rpID string, rpOrigin string, appID string, verifyUser bool, credentialBytes []byte) :: !hasKey(state.localAuthData, ghostAuthUser)   #C16.webauthn-challenge-taken-before-local-verification @C16,C05
+
+// ---- C07 / C15: a write that reports success was committed ----------------------------------------------------
+// Each of the four profile/record writers runs one transaction; a nil return means that very transaction was
+// committed (a success reported for a rolled-back write would leave an evicted password hash, or a deleted token,
+// in place).
+//@ ghost var ghostWriteTx *sql.Tx
+//@ ghost var ghostWriteCommitted bool
+//@ func (*RuntimeState).DeleteSigned
+//@   atcall (*database/sql.DB).Begin sets ghostWriteTx *sql.Tx (db *sql.DB, tx2 *sql.Tx, err2 error) :: tx2
+//@   atcall (*database/sql.DB).Begin sets ghostWriteCommitted bool (db *sql.DB, tx2 *sql.Tx, err2 error) :: false
+//@   atcall (*database/sql.Tx).Commit sets ghostWriteCommitted bool (tx2 *sql.Tx, err2 error) :: true if err2 == nil && tx2 == ghostWriteTx
+//@   atcall (*database/sql.Stmt).Exec requires (st *sql.Stmt, args []any) :: len(args) == 2 && asType[string](args[0]) == username && asType[int](args[1]) == dataType   #C07.evicts-the-named-record @C07
+//@   ensures ret0 == nil ==> ghostWriteCommitted   #C07.eviction-committed @C07,C15
+//@ func (*RuntimeState).UpsertSigned
+//@   atcall (*database/sql.DB).Begin sets ghostWriteTx *sql.Tx (db *sql.DB, tx2 *sql.Tx, err2 error) :: tx2
+//@   atcall (*database/sql.DB).Begin sets ghostWriteCommitted bool (db *sql.DB, tx2 *sql.Tx, err2 error) :: false
+//@   atcall (*database/sql.Tx).Commit sets ghostWriteCommitted bool (tx2 *sql.Tx, err2 error) :: true if err2 == nil && tx2 == ghostWriteTx
+//@   ensures ret0 == nil ==> ghostWriteCommitted   #C07.refresh-committed @C07,C15
+//@ func (*RuntimeState).SaveUserProfile
+//@   atcall (*database/sql.DB).Begin sets ghostWriteTx *sql.Tx (db *sql.DB, tx2 *sql.Tx, err2 error) :: tx2
+//@   atcall (*database/sql.DB).Begin sets ghostWriteCommitted bool (db *sql.DB, tx2 *sql.Tx, err2 error) :: false
+//@   atcall (*database/sql.Tx).Commit sets ghostWriteCommitted bool (tx2 *sql.Tx, err2 error) :: true if err2 == nil && tx2 == ghostWriteTx
+//@   ensures ret0 == nil ==> ghostWriteCommitted   #C15.saved-profile-committed @C15
+//@ func (*RuntimeState).DeleteUserProfile
+//@   atcall (*database/sql.DB).Begin sets ghostWriteTx *sql.Tx (db *sql.DB, tx2 *sql.Tx, err2 error) :: tx2
+//@   atcall (*database/sql.DB).Begin sets ghostWriteCommitted bool (db *sql.DB, tx2 *sql.Tx, err2 error) :: false
+//@   atcall (*database/sql.Tx).Commit sets ghostWriteCommitted bool (tx2 *sql.Tx, err2 error) :: true if err2 == nil && tx2 == ghostWriteTx
+//@   ensures ret0 == nil ==> ghostWriteCommitted   #C15.deleted-profile-committed @C15
